@@ -44,12 +44,12 @@ EDGE_FIELDS = {
 def run(F, R, tier):
     lw = F.body("graph::Builder::load_with_redirect_count")
     # ---------------- C01-a ------------------------------------------------
-    dedup = [n for n in lw["_nodes"] if n["k"] == "If" and n["cond"].get("k") == "Let" and any(x.get("k") == "MethodCall" and x["name"] == "get" and peel(x["recv"]).get("field") == "module_slots" for x in walk(n["cond"]["init"]))]
+    dedup = [n for n in lw["_nodes"] if n["k"] == "If" and n["cond"].get("k") == "Let" and any(x.get("k") == "MethodCall" and x["name"] == "get" and field_of(x["recv"]) == "module_slots" for x in walk(n["cond"]["init"]))]
     if R.ob("C01-a", "existing-slot check found", len(dedup) == 1, "load_with_redirect_count no longer tests `module_slots.get(specifier)` before loading", lw["file"]):
         dd = dedup[0]
         starters = ["Builder::load_pending_module", "Builder::load_jsr_subpath", "Builder::load_jsr_specifier", "Builder::load_npm_specifier"]
         sites = [n for n in lw["_nodes"] if callee_matches(n, starters)]
-        sites += [n for n in lw["_nodes"] if n.get("k") == "MethodCall" and n["name"] == "insert" and peel(n["recv"]).get("field") == "module_slots" and any(ctor_of(x) == "graph::ModuleSlot::Module" for x in walk(n))]
+        sites += [n for n in lw["_nodes"] if n.get("k") == "MethodCall" and n["name"] == "insert" and field_of(n["recv"]) == "module_slots" and any(ctor_of(x) == "graph::ModuleSlot::Module" for x in walk(n))]
         R.floor("C01-a load / slot-creation sites", len(sites), 6)
         fl = Flow(F, is_target=lambda n: n is dd["cond"], probe=lambda n: n in sites)
         fl.run(lw["body"]["value"], False)
@@ -76,7 +76,7 @@ def run(F, R, tier):
             ok = any(x.kind == "cond" and x.pol and (x.node.get("fn") or "").endswith("ModuleSlot::was_external_asset_load") for x in conds) and any(x.kind == "cond" and not x.pol and expr_text(x.node).endswith("is_asset") for x in conds) and len(conds) == 2
             R.ob("C01-a", "reload only for an external asset now imported as a module", ok, "should_reload_immediately = %s" % expr_text(sr[0]["init"]), where(sr[0]))
     # the redirect table is consulted first
-    rd = [n for n in lw["_nodes"] if n.get("k") == "MethodCall" and n["name"] == "get" and peel(n["recv"]).get("field") == "redirects"]
+    rd = [n for n in lw["_nodes"] if n.get("k") == "MethodCall" and n["name"] == "get" and field_of(n["recv"]) == "redirects"]
     R.ob("C01-a", "known redirects are applied before the slot lookup", len(rd) == 1 and bool(dedup) and may_reach(F, rd[0], dedup[0]), "load_with_redirect_count does not map the specifier through graph.redirects first", lw["file"])
 
     # ---------------- C01-b ------------------------------------------------
@@ -92,10 +92,10 @@ def run(F, R, tier):
     ok = False
     if len(ar) == 1:
         g = guards_at(F, ar[0])
-        ok = any(x.kind == "cond" and x.pol and x.node.get("k") == "Binary" and x.node["op"] == "!=" for x in g) and len([x for x in g if x.kind == "cond"]) == 1
+        ok = any(x.kind == "cond" and x.pol and x.node.get("k") == "Binary" and x.node["op"] == "!=" and all(tyc(F, x.node[s_], "url::Url") for s_ in ("l", "r")) for x in g) and len([x for x in g if x.kind == "cond" and not x.derived]) == 1
     R.ob("C01-b", "a redirect is added exactly when the answered specifier differs", ok, "check_specifier guard changed", cs["file"])
     adr = F.body("graph::Builder::add_redirect")
-    ent = [n for n in adr["_nodes"] if n.get("k") == "MethodCall" and n["name"] == "entry" and peel(n["recv"]).get("field") == "redirects"]
+    ent = [n for n in adr["_nodes"] if n.get("k") == "MethodCall" and n["name"] == "entry" and field_of(n["recv"]) == "redirects"]
     bad, _ = must_pass(F, adr["body"]["value"], lambda n: n in ent)
     R.ob("C01-b", "add_redirect always records the redirect", len(ent) == 1 and not bad, "a path through add_redirect records nothing", adr["file"])
 
@@ -135,7 +135,7 @@ def run(F, R, tier):
                             for d in local_defs(m["_top"], sp["lid"]):
                                 if d[1] is not None and peel_value(d[1]).get("k") == "Field" and peel_value(peel_value(d[1])["e"]).get("lid") in binds:
                                     return True
-                if m.get("k") == "MethodCall" and m["name"] in ("entry", "insert") and peel(m["recv"]).get("field") == "dynamic_branches":
+                if m.get("k") == "MethodCall" and m["name"] in ("entry", "insert") and field_of(m["recv"]) == "dynamic_branches":
                     return True
                 return False
 
@@ -220,7 +220,7 @@ def run(F, R, tier):
 
     # types dependency: the in-source declaration wins, later sources only fill a gap
     pj = F.body("graph::parse_js_module_from_module_info")
-    tw = [n for n in pj["_nodes"] if n["k"] == "Assign" and peel(n["l"]).get("field") == "maybe_types_dependency" and peel(n["l"]).get("adt") == "graph::JsModule"]
+    tw = [n for n in pj["_nodes"] if n["k"] == "Assign" and field_of(n["l"]) == "maybe_types_dependency" and peel(n["l"]).get("adt") == "graph::JsModule"]
     R.floor("C01-f writes to JsModule::maybe_types_dependency while parsing", len(tw), 4)
     for w in tw:
         earlier = [o for o in tw if o is not w and may_reach(F, o, w)]
@@ -229,7 +229,7 @@ def run(F, R, tier):
             continue
         g = guards_at(F, w)
         ok = any(x.kind == "cond" and x.pol and x.node.get("k") == "MethodCall" and x.node["name"] == "is_none" and peel_value(x.node["recv"]).get("field") == "maybe_types_dependency" for x in g) or \
-            any(x.kind == "cond" and not x.pol and mentions_field(x.node, "maybe_types_dependency") and any(y.get("name") == "is_some" for y in walk(x.node) if y.get("k") == "MethodCall") for x in g)
+            any(x.kind == "cond" and not x.orig_pol and mentions_field(x.orig, "maybe_types_dependency") and any(y.get("name") == "is_some" for y in walk(x.orig) if y.get("k") == "MethodCall") for x in g)
         R.ob("C01-f", "a later source of the types dependency only fills a gap (does not overwrite an earlier one)", ok,
              "`module.maybe_types_dependency = ..` can overwrite a types dependency already taken from the source text (not guarded by maybe_types_dependency.is_none()): the module would record the wrong type target", where(w))
     aj = [n for n in pm["_nodes"] if n["k"] == "Assign" and ctor_of(peel(n["r"])) == "deno_media_type::MediaType::JavaScript"]
